@@ -65,12 +65,14 @@ theorem loadRaw_leN (w n old : Nat) (rest : Bytes) (hw : 0 < w) (hn : n < 256 ^ 
     loadRaw w old (leN w n ++ rest) = some (n, rest) := by
   unfold loadRaw
   have hl := leN_length w n
-  have hk : Nat.min w (leN w n ++ rest).length = w := by
-    simp only [List.length_append, hl]; exact Nat.min_eq_left (by omega)
-  simp only [hk]
-  rw [if_neg (by omega), List.take_left' hl, List.drop_left' hl, deN_leN w n hn]
-  have : old % 256 ^ w / 256 ^ w = 0 := Nat.div_eq_of_lt (Nat.mod_lt _ (Nat.pow_pos (by omega)))
-  simp [this]
+  split
+  · rw [if_pos (by simp only [List.length_append, hl]; omega), List.take_left' hl, List.drop_left' hl, deN_leN w n hn]
+  · have hk : Nat.min w (leN w n ++ rest).length = w := by
+      simp only [List.length_append, hl]; exact Nat.min_eq_left (by omega)
+    simp only [hk]
+    rw [if_neg (by omega), List.take_left' hl, List.drop_left' hl, deN_leN w n hn]
+    have : old % 256 ^ w / 256 ^ w = 0 := Nat.div_eq_of_lt (Nat.mod_lt _ (Nat.pow_pos (by omega)))
+    simp [this]
 
 /-- every stored value fits the width it is written with, every vector length fits the 64-bit count -/
 structure InRange (iw : Nat) (c : Container) : Prop where
